@@ -10,9 +10,12 @@
    ENVIRONMENT ASSUMPTION (the API contract in ConnectToPanel's doc comment): the caller keeps
    receiving from msgsFromPanel; a blocked channel send is not modelled.
    PARTIAL (DESIGN section 5): Go scheduler, kernel TCP, timers exercised by the tie, not
-   modelled.  See also c11_returns_after_cancel_partial below. *)
+   modelled.  Not proved (checked by the oracle on every scenario): WHICH frames are delivered
+   when the cancellation falls in the middle of a frame - c11_complete_frames_once covers loss of
+   the panel at every byte offset; for cancellation only the time bound c11_returns_after_cancel
+   and the fact that every read ends by the local close (c11_cancel_ends_connection) are proved. *)
 From RP Require Import Lib.Base Lib.Varint Model.Net Model.Client Model.Lifecycle Spec.NetSpec
-     Proofs.NetProofs Proofs.NetFrameProofs Proofs.NetLifeProofs.
+     Proofs.NetProofs Proofs.NetFrameProofs Proofs.NetLifeProofs Proofs.NetTimedProofs.
 
 (* connect and disconnect callbacks strictly alternate, starting with connect *)
 Theorem c11_callbacks_alternate : forall cs, alternate true (cbs (snd (run init cs))) = true.
@@ -95,6 +98,49 @@ Theorem c11_complete_lines_once : forall (M : Type) (decode : bytes -> M) fuel (
    match c with Some (ct, rst) => Dropped ct (end_reason rst) | None => Waiting end).
 Proof. exact asc_refines. Qed.
 Print Assumptions c11_complete_lines_once.
+
+(* ---------- timed retry loop (Model/Client.v run_life): all scripts, all cancellation instants ---------- *)
+(* after panel loss (a non-cancelled disconnect at t) the very next action is the dial at exactly
+   t + the configured/default reconnection period; a cancelled disconnect at t is followed by
+   the return at t and by nothing else *)
+Theorem c11_reconnects_after_loss : forall (M : Type) (unmarshal decode : bytes -> M)
+    fuel cfuel cf lf scripts lats cT t,
+  retry_ok M (reconn cf) (run_life M unmarshal decode fuel cfuel cf lf scripts lats cT t).
+Proof. exact reconnects_after_loss. Qed.
+Print Assumptions c11_reconnects_after_loss.
+
+Example c11_default_and_configured_periods :
+  reconn (cfg_of 0 0) = 1000 /\ noconn (cfg_of 0 0) = 3000 /\ reconn (cfg_of 0 2) = 2000 /\ noconn (cfg_of 1 0) = 1000.
+Proof. repeat split; reflexivity. Qed.
+
+(* under cancellation at [lc] (relative to the dial) one connection's negotiation ends within
+   the 2 s probe window, its read loop ENDS (never stays blocked), and no later than the later
+   of the two: the writer goroutine's conn.Close() interrupts whatever read is in progress *)
+Theorem c11_cancel_ends_connection : forall (M : Type) (unmarshal decode : bytes -> M) fuel s lc,
+  let cr := run_conn M unmarshal decode fuel s (Some lc) in
+  cr_t0 M cr <= 2000 /\ cr_out M cr <> Waiting /\
+  forall td why, cr_out M cr = Dropped td why -> td <= Z.max (cr_t0 M cr) lc.
+Proof. exact run_conn_time. Qed.
+Print Assumptions c11_cancel_ends_connection.
+
+(* after cancellation at c the call returns within a bounded time: for every peer behaviour,
+   every listener availability, every instant c, if the (re)dial under way started no later than
+   c + reconnection period and dials take at most L, then EVERY return instant in the trace is
+   <= c + reconnection period + L + 2000 (probe window) + 1000 (ASCII EOF sleep) - the bound
+   names exactly the uninterruptible waits of the code *)
+Theorem c11_returns_after_cancel : forall (M : Type) (unmarshal decode : bytes -> M)
+    fuel cfuel cf lf scripts lats c t L,
+  0 <= reconn cf -> 0 <= L -> Forall (fun x => x <= L) lats -> t <= c + reconn cf ->
+  Forall (returned_by M (c + reconn cf + L + 3000)) (run_life M unmarshal decode fuel cfuel cf lf scripts lats (Some c) t).
+Proof. exact returns_after_cancel. Qed.
+Print Assumptions c11_returns_after_cancel.
+
+Example c11_ex_life :
+  run_life bytes (fun p => p) (fun p => p) 10 10 (cfg_of 0 0) 0
+    [[Seg 10 (frame ack_payload); Seg 50 [1; 0; 0; 0; 7]; Close 300]; [Seg 5 (frame ack_payload)]] [1; 2] (Some 2500) 0
+  = [LDial 0 true; LWrote 1 [2; 0; 0; 0; 8; 1]; LConnect 11 [] true; LAlloc 51 1; LDeliver 51 [7]; LDisconnect 301 false;
+     LDial 1301 true; LWrote 1303 [2; 0; 0; 0; 8; 1]; LConnect 1308 [] true; LDisconnect 2500 true; LReturned 2500].
+Proof. reflexivity. Qed.
 
 (* non-vacuity: the lifecycle system does reach the interesting states *)
 Example c11_ex_run :
